@@ -119,17 +119,21 @@ Proof. exact zernike_support_only. Qed.
 Print Assumptions C11_mode_mask_support_only.
 
 (* ---- (d) orthogonality ---- *)
-(* radial, weight rho on [0,1] (Riemann integral; bounded: n, n' <= 20).  The polynomial is the
+(* radial, weight rho on [0,1] (Riemann integral; bounded: n, n' <= 50: for each (n, m) the kernel evaluates the moments of R_n^m against
+   rho^(m+2s), s < (n-m)/2, and its norm in exact rational arithmetic; the pairs follow by bilinearity).  The polynomial is the
    model's term list evaluated on the reals, as [radial] evaluates it on the rationals. *)
 Theorem C11_radial_orthogonality :
   let Rpoly := fun (p : list (Z * Qc)) (x : R) =>
                  fold_left (fun acc (t : Z * Qc) => (acc + Q2R (snd t) * x ^ Z.to_nat (fst t))%R) p 0%R in
   (forall m n rho, Z.even (Z.abs n - Z.abs m) = true ->
      Q2R (radial m n rho) = Rpoly (radial_terms (Z.abs m) (Z.abs n)) (Q2R rho))
-  /\ forall m n n', 0 <= m -> m <= n <= 20 -> m <= n' <= 20 -> Z.even (n - m) = true -> Z.even (n' - m) = true ->
+  /\ (forall m n n', 0 <= m -> m <= n <= 50 -> m <= n' <= 50 -> Z.even (n - m) = true -> Z.even (n' - m) = true ->
      is_RInt (fun rho => (Rpoly (radial_terms m n) rho * Rpoly (radial_terms m n') rho * rho)%R) 0%R 1%R
-             (if n =? n' then (/ (2 * IZR (n + 1)))%R else 0%R).
-Proof. exact (conj radial_Reval radial_orthogonality_RInt). Qed.
+             (if n =? n' then (/ (2 * IZR (n + 1)))%R else 0%R))
+  (* R_n^m is orthogonal to every lower-degree polynomial rho^m q(rho^2): all monomials rho^(m+2s), s < (n-m)/2 *)
+  /\ (forall m n s, 0 <= m <= n -> n <= 50 -> Z.even (n - m) = true -> 0 <= s < (n - m) / 2 ->
+      is_RInt (fun rho => (Rpoly (radial_terms m n) rho * rho ^ Z.to_nat (m + 2 * s) * rho)%R) 0%R 1%R 0%R).
+Proof. exact (conj radial_Reval (conj radial_orthogonality_RInt radial_lower_moments_RInt)). Qed.
 Print Assumptions C11_radial_orthogonality.
 
 (* azimuthal, over a full turn, all integers m, m' (the factor as the code has it) *)
@@ -142,7 +146,7 @@ Theorem C11_angular_orthogonality :
 Proof. exact angular_orthogonality. Qed.
 Print Assumptions C11_angular_orthogonality.
 
-(* composed (bounded: j, j' <= 231, i.e. n <= 20): (1/pi) * integral over the unit disk of Z_j Z_j',
+(* composed (bounded: j, j' <= 1326, i.e. n <= 50): (1/pi) * integral over the unit disk of Z_j Z_j',
    in separated form N_j N_j' (int_0^1 R R' rho drho) (int_0^2pi A A' dtheta) / pi, is delta_jj':
    unit mean square (piston: the constant 1), vanishing cross products *)
 Theorem C11_zernike_orthonormal :
@@ -150,7 +154,7 @@ Theorem C11_zernike_orthonormal :
                  fold_left (fun acc (t : Z * Qc) => (acc + Q2R (snd t) * x ^ Z.to_nat (fst t))%R) p 0%R in
   let az := fun (m : Z) (theta : R) =>
               if m =? 0 then 1%R else if 0 <? m then cos (IZR m * theta) else sin (IZR m * theta) in
-  forall j j' m n m' n', 1 <= j <= 231 -> 1 <= j' <= 231 -> noll j = (m, n) -> noll j' = (m', n') ->
+  forall j j' m n m' n', 1 <= j <= 1326 -> 1 <= j' <= 1326 -> noll j = (m, n) -> noll j' = (m', n') ->
   exists Ir Ia : R,
     is_RInt (fun rho => (Rpoly (radial_terms (Z.abs m) n) rho * Rpoly (radial_terms (Z.abs m') n') rho * rho)%R) 0%R 1%R Ir /\
     is_RInt (fun theta => (az m theta * az m' theta)%R) 0%R (2 * PI)%R Ia /\
